@@ -1056,6 +1056,230 @@ pub fn gen_unloaded_overlap(tier: Tier) -> Gen {
 }
 
 // ---------------------------------------------------------------------------------------------
+// C14 stack-region space: the memory a walk continues in is the memory its starting context
+// points into (own generator and serialiser; `Model` / `build` are left as they are)
+
+/// How a region encodes its callers.
+#[derive(Clone, Copy, Debug, PartialEq, Eq, Hash)]
+pub enum StackLayout {
+    /// standard frame records `[saved frame pointer][return address]` chained through the frame
+    /// pointer of the starting context; the outermost record is `[0][0]`
+    FramePointer,
+    /// no frame pointer (0); return addresses into a loaded module lie between zero words
+    Scan,
+}
+/// Where the stack pointer of a starting context lies.
+#[derive(Clone, Copy, Debug, PartialEq, Eq, Hash)]
+pub enum SpLoc {
+    /// the region the thread's own stack descriptor names
+    Own,
+    /// a region of the memory list no thread descriptor names (alternate signal stack)
+    Extra,
+    /// the region the other thread's stack descriptor names (switched stack / wrong descriptor)
+    Sibling,
+}
+#[derive(Clone)]
+pub struct StackRegionM {
+    pub base: u64,
+    pub bytes: Vec<u8>,
+    /// stack / frame pointer of a context that starts in this region
+    pub sp: u64,
+    pub fp: u64,
+    /// what the region encodes, innermost caller first: return address and the caller's stack pointer
+    pub returns: Vec<u64>,
+    pub caller_sps: Vec<u64>,
+}
+impl std::fmt::Debug for StackRegionM {
+    fn fmt(&self, f: &mut std::fmt::Formatter<'_>) -> std::fmt::Result {
+        write!(f, "Region {{ base: {:#x}, len: {:#x}, sp: {:#x}, fp: {:#x}, returns: {:x?}, caller_sps: {:x?} }}", self.base, self.bytes.len(), self.sp, self.fp, self.returns, self.caller_sps)
+    }
+}
+#[derive(Clone, Debug)]
+pub struct StackM {
+    /// the index part (CPU, OS, threads with the ip / sp of their contexts, exception, modules)
+    pub model: Model,
+    pub layout: StackLayout,
+    /// the regions; `stream_order` is the order they have in the memory list
+    pub regions: Vec<StackRegionM>,
+    pub stream_order: Vec<usize>,
+    /// per thread: the region its stack descriptor names / the region its thread context starts in
+    pub own: Vec<usize>,
+    pub thread_start: Vec<(SpLoc, usize)>,
+    /// the region the exception context starts in
+    pub exc_start: Option<(SpLoc, usize)>,
+}
+impl StackM {
+    /// (which context, where its sp lies, region) the walk of thread `i` starts from
+    pub fn start_of(&self, i: usize) -> (&'static str, SpLoc, usize) {
+        match (&self.model.exc, self.exc_start) {
+            (Some(x), Some((loc, r))) if x.tid == self.model.threads[i].tid => ("exception-context", loc, r),
+            _ => ("thread-context", self.thread_start[i].0, self.thread_start[i].1),
+        }
+    }
+    pub fn summary(&self) -> Value {
+        json!(format!("{self:?}"))
+    }
+}
+
+/// bytes of a readable context with instruction, stack and frame pointer (x86: ebp, amd64: rbp, arm64: x29)
+pub fn context_with_fp(cpu: CpuK, ip: u64, sp: u64, fp: u64) -> Vec<u8> {
+    match cpu {
+        CpuK::X86 => zeroed_ctx::<md::CONTEXT_X86>(|c| {
+            c.context_flags = 0x1003f;
+            (c.eip, c.esp, c.ebp) = (ip as u32, sp as u32, fp as u32);
+        }),
+        CpuK::Amd64 => zeroed_ctx::<md::CONTEXT_AMD64>(|c| {
+            c.context_flags = 0x10001f;
+            (c.rip, c.rsp, c.rbp) = (ip, sp, fp);
+        }),
+        CpuK::Arm64 => zeroed_ctx::<md::CONTEXT_ARM64>(|c| {
+            c.context_flags = 0x40001f;
+            c.iregs[29] = fp;
+            (c.pc, c.sp) = (ip, sp);
+        }),
+        _ => panic!("procgen: no frame-pointer context for {cpu:?}"),
+    }
+}
+
+pub const STACK_REGIONS_BASE: u64 = STACK_BASE + 0x10_0000;
+/// Region `j` (0x400 bytes at `STACK_REGIONS_BASE + 0x10000 * j`) encoding `depth` callers whose
+/// return addresses lie in the application module. A context starting here has sp = base + 0x40.
+pub fn stack_region(cpu: CpuK, layout: StackLayout, j: usize, depth: usize) -> StackRegionM {
+    let w: u64 = if cpu.bits() == Some(32) { 4 } else { 8 };
+    let base = STACK_REGIONS_BASE + 0x1_0000 * j as u64;
+    let mut bytes = vec![0u8; 0x400];
+    let mut put = |addr: u64, v: u64| {
+        let o = (addr - base) as usize;
+        bytes[o..o + w as usize].copy_from_slice(&v.to_le_bytes()[..w as usize]);
+    };
+    let returns: Vec<u64> = (0..depth as u64).map(|k| APP_BASE + 0x1000 * (j as u64 + 1) + 0x10 * (k + 1)).collect();
+    let sp = base + 0x40;
+    let mut caller_sps = vec![];
+    let fp = match layout {
+        StackLayout::FramePointer => {
+            // frame pointers 0x40, 0x50, 0x60 bytes apart; the record at the last one stays [0][0]
+            let mut fps = vec![base + 0x60];
+            for k in 0..depth as u64 {
+                fps.push(fps[k as usize] + 0x40 + 0x10 * k);
+            }
+            for k in 0..depth {
+                put(fps[k], fps[k + 1]);
+                put(fps[k] + w, returns[k]);
+                caller_sps.push(fps[k] + 2 * w);
+            }
+            fps[0]
+        }
+        StackLayout::Scan => {
+            for (k, ra) in returns.iter().enumerate() {
+                let a = sp + w * (3 + 5 * k as u64);
+                put(a, *ra);
+                caller_sps.push(a + w);
+            }
+            0
+        }
+    };
+    StackRegionM { base, bytes, sp, fp, returns, caller_sps }
+}
+
+pub fn build_stacks(s: &StackM) -> Vec<u8> {
+    let e = Endian::Little;
+    let m = &s.model;
+    let mut d = synth::SynthMinidump::with_endian(e);
+    // exception context first: its RVA is the header size (see `build`)
+    let mut exc_loc = (0u32, 0u32);
+    if let (Some(x), Some((_, r))) = (&m.exc, s.exc_start) {
+        let b = context_with_fp(m.cpu, x.ctx_ip, x.ctx_sp, s.regions[r].fp);
+        exc_loc = (b.len() as u32, 32);
+        d = d.add(bytes_section(&b));
+    }
+    d = d.add_system_info(synth::SystemInfo::new(e).set_processor_architecture(m.cpu.arch()).set_platform_id(m.platform_id));
+    let mems: Vec<synth::Memory> = s.regions.iter().map(|r| synth::Memory::with_section(bytes_section(&r.bytes), r.base)).collect();
+    for (i, t) in m.threads.iter().enumerate() {
+        let ctx = bytes_section(&context_with_fp(m.cpu, t.ip, t.sp, s.regions[s.thread_start[i].1].fp));
+        d = d.add_thread(synth::Thread::new(e, t.tid, &mems[s.own[i]], &ctx)).add(ctx);
+    }
+    let mut slots: Vec<Option<synth::Memory>> = mems.into_iter().map(Some).collect();
+    for &j in &s.stream_order {
+        d = d.add_memory(slots[j].take().expect("procgen: stream_order is a permutation"));
+    }
+    for (tid, n) in &m.thread_names {
+        let st = synth::DumpString::new(n, e);
+        d = d.add_thread_name(synth::ThreadName::new(e, *tid, Some(&st))).add(st);
+    }
+    for md_ in &m.modules {
+        let name = synth::DumpString::new(&md_.name, e);
+        d = d.add_module(synth::Module::new(e, md_.base, md_.size, &name, 0x1234, 0, None)).add(name);
+    }
+    if let Some(x) = &m.exc {
+        let mut ex = synth::Exception::new(e);
+        ex.thread_id = x.tid;
+        ex.exception_record.exception_code = x.code;
+        ex.exception_record.exception_flags = x.flags;
+        ex.exception_record.exception_address = x.address;
+        ex.exception_record.number_parameters = x.nparams;
+        ex.exception_record.exception_information = x.info;
+        ex.thread_context = exc_loc;
+        d = d.add_exception(ex);
+    }
+    d.finish().expect("procgen: synth dump finishes")
+}
+
+#[derive(Clone)]
+pub struct StackGen {
+    pub name: &'static str,
+    pub len: u64,
+    pub model: Arc<dyn Fn(u64) -> StackM + Send + Sync>,
+}
+pub const SP_LOCS: [SpLoc; 3] = [SpLoc::Own, SpLoc::Extra, SpLoc::Sibling];
+pub const STACK_CPU_LAYOUTS: [(CpuK, StackLayout); 5] =
+    [(CpuK::Amd64, StackLayout::FramePointer), (CpuK::X86, StackLayout::FramePointer), (CpuK::Arm64, StackLayout::FramePointer), (CpuK::Amd64, StackLayout::Scan), (CpuK::X86, StackLayout::Scan)];
+
+/// C14 stack-region space: two threads (ids 1, 2), each with its own stack region (0, 1) and an
+/// extra region (2, 3) that no descriptor names; every region encodes a different number of
+/// callers (1..3) with its own return addresses. Product of: exception {absent, names thread
+/// 0 / 1 with its context's sp in {own, extra, sibling's} region} (7) x thread 0's context sp
+/// location (3) x thread 1's (3) x depth rotation (3) x memory-list order {stacks first, extras
+/// first} (2) x (CPU, layout) (5: frame-pointer chain on amd64 / x86 / arm64, scan on amd64 /
+/// x86) x OS {Windows, Linux, Mac} (3).
+pub fn gen_stack_regions(_tier: Tier) -> StackGen {
+    let radices = vec![7u64, 3, 3, 3, 2, 5, 3];
+    let len = crate::core::product(&radices);
+    let model = move |idx: u64| {
+        use md::PlatformId as P;
+        let d = crate::core::unrank(idx, &radices);
+        let (cpu, layout) = STACK_CPU_LAYOUTS[d[5] as usize];
+        let pid = [P::VER_PLATFORM_WIN32_NT as u32, P::Linux as u32, P::MacOs as u32][d[6] as usize];
+        let regions: Vec<StackRegionM> = (0..4).map(|j| stack_region(cpu, layout, j, 1 + (d[3] as usize + j) % 3)).collect();
+        let region_of = |thread: usize, loc: SpLoc| match loc {
+            SpLoc::Own => thread,
+            SpLoc::Extra => 2 + thread,
+            SpLoc::Sibling => 1 - thread,
+        };
+        let mut m = Model::new(cpu, pid);
+        add_threads(&mut m, &[1, 2], 0);
+        m.modules.push(app_module());
+        let thread_start: Vec<(SpLoc, usize)> = (0..2).map(|i| (SP_LOCS[d[1 + i] as usize], region_of(i, SP_LOCS[d[1 + i] as usize]))).collect();
+        for i in 0..2 {
+            m.threads[i].sp = regions[thread_start[i].1].sp;
+            m.threads[i].ip = APP_BASE + 0x800 + 0x10 * i as u64;
+        }
+        let mut exc_start = None;
+        if d[0] > 0 {
+            let (t, loc) = (((d[0] - 1) / 3) as usize, SP_LOCS[((d[0] - 1) % 3) as usize]);
+            let r = region_of(t, loc);
+            let rec: Rec = if os_of(pid) == OsK::Windows { (0xC000_0005, 0, 2, [1, 0x20800, 0]) } else { (11, 1, 0, [0, 0, 0]) };
+            let mut x = exc_of(rec, m.threads[t].tid, 0x45, 1);
+            x.ctx_sp = regions[r].sp;
+            m.exc = Some(x);
+            exc_start = Some((loc, r));
+        }
+        let stream_order = if d[4] == 0 { vec![0, 1, 2, 3] } else { vec![3, 2, 1, 0] };
+        StackM { model: m, layout, regions, stream_order, own: vec![0, 1], thread_start, exc_start }
+    };
+    StackGen { name: "stack-regions", len, model: Arc::new(model) }
+}
+
+// ---------------------------------------------------------------------------------------------
 // C19 bit-flip space
 
 pub const TOP: u64 = u64::MAX - 0xfff; // first byte of the topmost page
